@@ -5,6 +5,7 @@ import Driver.Vm
 import Driver.Feat
 import Driver.Cmap
 import Driver.Zones
+import Driver.Heap
 /-! `grdriver <mode>`: one input line → one output line (DESIGN.md §2 "line protocol") -/
 open Driver
 
@@ -31,5 +32,6 @@ def main (args : List String) : IO UInt32 := do
   | ["feat"] => loop stdin stdout Feat.step; return 0
   | ["cmap"] => loop stdin stdout Cmap.step; return 0
   | ["zones"] => loop stdin stdout Zones.step; return 0
+  | ["heap"] => loop stdin stdout Heap.step; return 0
   | ["lz4io"] => loopIO stdin stdout Lz4.stepIO; return 0
   | _ => IO.eprintln "usage: grdriver <mode>"; return 2
